@@ -72,8 +72,13 @@ def std(rng, lens, modes):
     return {"kind": "std", "blocks": [payload(rng, ln, rng.random() < 0.3) for ln in lens], "_modes": list(modes)}
 
 
-def tex(rng, hdr_len, mips, modes):
-    return {"kind": "tex", "header": payload(rng, hdr_len), "mips": [[payload(rng, ln) for ln in mip] for mip in mips], "_modes": list(modes)}
+def tex(rng, hdr_len, mips, modes, gaps=None, order=None):
+    d = {"kind": "tex", "header": payload(rng, hdr_len), "mips": [[payload(rng, ln) for ln in mip] for mip in mips], "_modes": list(modes)}
+    if gaps is not None:
+        d["_gaps"] = gaps           # storage only: free 128-byte units in front of each mip's blocks
+    if order is not None:
+        d["_order"] = order         # storage only: the order in which the mips' blocks lie in the data file
+    return d
 
 
 def mdl(rng, counts, lens, modes, lods):
@@ -120,7 +125,17 @@ def cases(rng, tier):
         nm = rng.choice([1, 2, 3, 13]) if rng.random() < 0.4 else rng.randint(1, 13)
         mips = [[rng.choice(CLASSES[:4] + [4096, 16000]) for _ in range(rng.randint(1, 3))] for _ in range(nm)]
         modes = [rng.choice(MODES) for _ in range(sum(len(m) for m in mips))]
-        out.append(read_case(n, tex(rng, rng.choice([80, 80, 96, 128]), mips, modes), pre=n % 2)); n += 1
+        # every mip states where its blocks lie: in a third of the textures they are not back to back / not in reading order
+        r = rng.random()
+        # (the first mip stays first and without a gap: the texture header is by definition what precedes it)
+        gaps = [0] + [rng.choice([0, 0, 1, 2]) for _ in range(nm - 1)] if r < 0.33 else None
+        order = [0] + rng.sample(range(1, nm), nm - 1) if 0.2 < r < 0.45 else None
+        out.append(read_case(n, tex(rng, rng.choice([80, 80, 96, 128]), mips, modes, gaps, order), pre=n % 2)); n += 1
+    # deterministic: two and three mips with a gap in front of the second / third, and stored in reverse order
+    for mips, gaps, order in [([[300], [100]], [0, 1], None), ([[300, 200], [100], [50]], [0, 0, 2], None), ([[128], [64], [32]], [0, 1, 1], None),
+                              ([[300], [100], [60]], None, [0, 2, 1]), ([[300, 200], [100, 90], [50]], [0, 1, 0], [0, 2, 1])]:
+        nbk = sum(len(m) for m in mips)
+        out.append(read_case(n, tex(rng, 80, mips, [MODES[k % len(MODES)] for k in range(nbk)], gaps, order))); n += 1
     # (4) models: per-section block counts 0..2 (bounded-exhaustive in thorough: 3^8), LOD count 1..3
     allcounts = list(itertools.product([0, 1, 2], repeat=8))
     for counts in (allcounts if tier == "thorough" else rng.sample(allcounts, 200)):
